@@ -593,7 +593,7 @@ def random_task(args):
             ok, info = random_history(cfg, text0, pos0, events)
 
             def detail(info=info, cfg=cfg, text0=text0, pos0=pos0, events=events):
-                return {"clause": "random-histories", "why": f"step {info.get('step')}: [{info.get('clause')}] {info.get('why')}", "cfg": cfg, "text0": text0, "pos0": pos0, "events": events, "obs": info.get("obs"), "class": _why_class(info.get("clause", ""), str(info.get("why")), info.get("event"))}
+                return {"clause": "random-histories", "why": f"step {info.get('step')}: [{info.get('clause')}] {info.get('why')}", "cfg": cfg, "text0": text0, "pos0": pos0, "events": events, "obs": info.get("obs"), "class": ("zero-width-row|" if (info.get("obs") or {}).get("zero_width_row") else "") + _why_class(info.get("clause", ""), str(info.get("why")), info.get("event"))}
 
             tally.case("random-histories", ok, True, detail, sample={"cfg": cfg, "text0": text0, "pos0": pos0, "events": events})
     tally.cpu = time.process_time() - cpu0
